@@ -21,7 +21,10 @@ def run_sketch(cpp, passes=3, env=None, timeout=20, sanitize=False):
         e = dict(os.environ)
         e.update(env or {})
         try:
-            r = subprocess.run([exe, str(passes)], capture_output=True, text=True, timeout=timeout, env=e)
+            r = subprocess.run([exe, str(passes)], capture_output=True, timeout=timeout, env=e)
+            # the LCD's block character is the byte 0xFF on the device; the host model shows it as U+2588
+            r.stdout = r.stdout.decode("latin-1").replace("\xff", "\u2588")
+            r.stderr = r.stderr.decode("latin-1")
         except subprocess.TimeoutExpired:
             return {"compiled": True, "timeout": True, "events": []}
         return {"compiled": True, "rc": r.returncode, "events": r.stdout.splitlines(), "stderr": r.stderr[-1500:]}
